@@ -118,8 +118,8 @@ def structures(ident, tier, seed=0):
                     dict(nsat=0, nsig=1, cellmask='zero'), dict(nsat=1, nsig=1, cellmask='ones'),
                     dict(nsat=1, nsig=1, cellmask='zero'), dict(nsat=2, nsig=1, cellmask='ones'),
                     dict(nsat=1, nsig=2, cellmask=seed + 3), dict(nsat=2, nsig=2, cellmask='ones'),
-                    dict(nsat=2, nsig=2, cellmask=seed + 5), dict(nsat=3, nsig=2, cellmask=seed + 7),
-                    dict(nsat=4, nsig=4, cellmask=seed + 9)]
+                    dict(nsat=2, nsig=2, cellmask=seed + 5), dict(nsat=3, nsig=2, cellmask=seed + 7, maskmode='value', seed=seed),
+                    dict(nsat=4, nsig=4, cellmask=seed + 9, maskmode='value', seed=seed + 1), dict(nsat=8, nsig=3, cellmask=seed + 11, maskmode='value', seed=seed + 2)]
     elif k == 'harm':
         hs = [(0, 0, 0), (0, 1, 0), (0, 1, 1), (1, 1, 1), (0, 2, 1), (0, 2, 5), (0, 0, 3), (1, 1, 4)] if tier == 'quick' else \
             [(l, n, m) for l in (0, 1, 2) for n in (0, 1, 2, 3) for m in range(0, n + 1)] + \
